@@ -5,6 +5,7 @@
 // their floating-point representation. The generator only emits an operation when every operand is inside
 // the documented domain and eps stays below 1/4, so the integer results must be exactly equal.
 #include "lib.h"
+#include "ops.h"
 #include "oracle.h"
 
 typedef enum { T_ZNX, T_DFT, T_BIG, T_PPOL, T_PMAT, T_DFT120, T_BIG120 } vtype_t;
@@ -621,6 +622,16 @@ static void program_case(uint64_t N, int ntt, int native, unsigned prog, int len
 
 void run_C16(void) {
   const int th = G.thorough;
+  {
+    static const char* const CNAMES[] = {"vec_znx_add", "vec_znx_sub", "vec_znx_rotate", "vec_znx_automorphism", "vec_znx_normalize_base2k", "vec_znx_dft", "svp_apply_dft", "vmp_prepare_contiguous", "vmp_apply_dft", "vmp_apply_dft_to_dft", "vec_znx_idft", "vec_znx_idft_tmp_a", "vec_znx_big_add", "vec_znx_big_add_small2", "vec_znx_big_sub_small_a", "vec_znx_big_rotate", "vec_znx_big_normalize_base2k", "vec_znx_big_range_normalize_base2k", "vec_znx_dft@ntt120", "vec_znx_idft@ntt120"};
+    static const uint64_t CNS[] = {4, 32, 512, 8192};
+    for (size_t i = 0; i < ARRAY_LEN(CNS); i++)
+      for (int cfg = DISP_NATIVE; cfg >= DISP_GENERIC; cfg--)
+        for (unsigned rep = 0; rep < (th ? 5u : 1u); rep++) {
+          if (!th && CNS[i] > 4096 && cfg == DISP_GENERIC) continue;
+          ops_concurrent_case("C16 entry points", CNAMES, (int)ARRAY_LEN(CNAMES), CNS[i], cfg, CNS[i] <= 256 ? 8 : 4, rep, "concurrent_entry_calls");
+        }
+  }
   if (negacyclic_selfcheck(G.seed)) harness_fail("oracle self-check failed");
   // dimension weights: small N dominate; every N is visited
   static const uint64_t WN[] = {2, 4, 4, 8, 8, 16, 16, 32, 64, 64, 128, 256, 512, 1024, 2048, 4096, 8192, 16384, 32768, 65536};
